@@ -99,7 +99,11 @@ def witnesses():
     world = [{"cls": "P", "a": 1, "b": 0, "items": [], "kids": [], "ref": None, "d": {"k": 0}, "name": f"o{i}"} for i in range(4)]
     return {"product-materialises-domain": {
         "world": world, "vars": [{"name": "x", "type": "P", "dom": [0, 1, 2, 3], "kind": "gen"}], "derived": [],
-        "cond": None, "select": [["var", "x"]], "mode": "entity", "family": "single"}}
+        "cond": None, "select": [["var", "x"]], "mode": "entity", "family": "single"},
+        "product-materialises-domain-predicate-first": {
+        "world": world, "vars": [{"name": "x", "type": "P", "dom": [0, 1, 2, 3], "kind": "gen"}], "derived": [],
+        "cond": ["cmp", ">", ["fn", "sum_ab", {"x": ["var", "x"]}], ["lit", 0]], "select": [["var", "x"]], "mode": "entity",
+        "family": "single"}}
 
 
 def label(v):
@@ -357,11 +361,8 @@ def run(spec, ctx):
                     if n_pulled > sat_pos[k - 1] + 1:
                         problems.append(f"single-variable query pulled {n_pulled} domain elements for result {k}; "
                                         f"the {k}-th satisfying element is at position {sat_pos[k - 1]}")
-                        if n_pulled == len(v["dom"]) and _first_binder_is_product(spec):
-                            known_key = "product-materialises-domain"
-                        else:
-                            known_key = None
-                            unknown_seen = True
+                        known_key = None
+                        unknown_seen = True
         else:
             vx = spec["vars"][0]
             xs = [i for i in vx["dom"]]
